@@ -57,7 +57,7 @@ def signature(name, t, pre, post):
         "pre_reason": pre["ro"].get("reason", ""), "pre_state": pre["ro"].get("state", ""),
         "post_reason": post["ro"].get("reason", ""), "post_state": post["ro"].get("state", ""),
         "pre_phase": pre["ro"].get("phase", ""), "kind": pre["wl"].get("kind", ""), "style": pre["wl"].get("style", ""),
-        "brEver": post["ghost"].get("brEver"), "jumpBack": post["ghost"].get("jumpBack"), "lateChange": post["ghost"].get("lateChange"), "disSup": post["ghost"].get("disSup"), "midSwitch": post["ghost"].get("midSwitch"),
+        "brEver": post["ghost"].get("brEver"), "jumpBack": post["ghost"].get("jumpBack"), "lateChange": post["ghost"].get("lateChange"), "disSup": post["ghost"].get("disSup"), "supBack": post["ghost"].get("supBack"), "midSwitch": post["ghost"].get("midSwitch"),
         "planEdited": bool(pre["used"].get("user.editplan")), "pre_hashOk": pre["ro"].get("hashOk"),
         "workloadObserved": pre["wl"].get("genOk"), "post_inprog": bool(post["wl"].get("inprog")), "pre_fstep": pre["ro"].get("fstep", ""),
     }
